@@ -32,12 +32,19 @@ func capitalizeFirst(s string) string {
 
 // EvaluateExpression evaluates an expression and returns its value
 func (i *Interpreter) EvaluateExpression(expr Expr, env *Environment) (interface{}, error) {
-	depth := atomic.AddInt64(&i.evalDepth, 1)
+	// The depth limit is per request: a route's scopes carry their own counter
+	// (ExecuteRoute), so that requests in flight at the same time do not use up
+	// each other's budget. Callers without one share the interpreter-wide counter.
+	counter := &i.evalDepth
+	if env != nil && env.depth != nil {
+		counter = env.depth
+	}
+	depth := atomic.AddInt64(counter, 1)
 	if depth > maxEvalDepth {
-		atomic.AddInt64(&i.evalDepth, -1)
+		atomic.AddInt64(counter, -1)
 		return nil, fmt.Errorf("maximum evaluation depth exceeded (%d levels)", maxEvalDepth)
 	}
-	defer atomic.AddInt64(&i.evalDepth, -1)
+	defer atomic.AddInt64(counter, -1)
 	switch e := expr.(type) {
 	case LiteralExpr:
 		return i.evaluateLiteral(e.Value)
